@@ -78,7 +78,17 @@ def create_linked_view(project, prefix=None, job_ids=None, path=None):
 
     links = {}
     for job in jobs:
-        paths = os.path.join(path_function(job), "job")
+        # Normalized link paths: the view is analyzed in terms of normalized paths.
+        paths = os.path.normpath(os.path.join(path_function(job), "job"))
+        if (
+            paths in links
+            or os.path.isabs(paths)
+            or paths == os.pardir
+            or paths.startswith(os.pardir + os.sep)
+        ):
+            raise RuntimeError(
+                f"The link path '{paths}' is not unique or leaves the view directory."
+            )
         links[paths] = job.path
     if not links:  # data space contains less than two elements
         for job in project.find_jobs():
@@ -177,7 +187,9 @@ def _analyze_view(prefix, links, leaf="job"):
 
     """
     logger.info(f"Analyzing view prefix '{prefix}'...")
-    existing_paths = {os.path.join(p, leaf) for p in _find_all_links(prefix, leaf)}
+    existing_paths = {
+        os.path.normpath(os.path.join(p, leaf)) for p in _find_all_links(prefix, leaf)
+    }
     existing_tree = _build_tree(existing_paths)
     for path in links:
         _color_path(existing_tree, path.split(os.sep))
